@@ -1,1 +1,2 @@
 import AnsiSpec.Terminal
+import AnsiSpec.Styled
